@@ -104,6 +104,17 @@ func init() {
 		for _, e := range in.layerTab {
 			cs = append(cs, in.tc.Implies(in.tc.Eq(e.id, id), in.tc.Eq(e.layer, l)))
 		}
+		// keep the current model a model: give the new layer variable the value the model
+		// already assigns to an equal id (saves a solver call)
+		if in.model != nil && !in.replaying() {
+			for _, e := range in.layerTab {
+				if in.evalModel(in.tc.Eq(e.id, id)) != 0 {
+					in.model[l.name] = in.evalModel(e.layer)
+					in.modelMemo = nil
+					break
+				}
+			}
+		}
 		in.layerTab = append(in.layerTab, layerEnt{id, l})
 		if !in.assume(in.tc.And(cs...), "layer-fn") {
 			panic(pathAbort{"assume-false"})
@@ -249,4 +260,23 @@ func init() {
 		}
 		return fr.in.tc.tTrue
 	})
+}
+
+func init() {
+	// verifNondetKey / verifNondetVal: arbitrary 64-bit values drawn from a KW-bit range
+	// (zero-extended). Keys and values are only compared, (un)marshalled and hashed, never
+	// computed with, so behaviour is invariant under order-isomorphic renaming and a range of
+	// 2^KW values loses nothing while it exceeds the number of keys in play; it spares the
+	// solver 64-bit ordering reasoning at the bit level.
+	narrow := func(fr *frame, a []value) value {
+		in := fr.in
+		kw := int(in.cfg.Bounds["KW"])
+		if kw <= 0 || kw >= 64 {
+			return in.nondet(strArg(a[0]), 64)
+		}
+		t := in.nondet(strArg(a[0]), kw)
+		return in.tc.Zext(t, 64)
+	}
+	regVerif("verifNondetKey", narrow)
+	regVerif("verifNondetVal", narrow)
 }
